@@ -134,23 +134,25 @@ def dofGet : List (Nat × Nat) → Nat → Nat
   | [], _ => 0
   | p :: r, k => if p.1 = k then p.2 else dofGet r k
 
-/-- the loop `for grid in grids:`; stops (KeyError of `mdg.subdomain_data` /
-    `mdg.interface_data`) at a grid that is not in the md-grid, keeping what was registered -/
+/-- the loop `for grid in grids:`; stops at a grid that is not a subdomain (resp. interface) of
+    the md-grid, keeping what was registered so far: `assert isinstance(grid, …)` fails for a
+    grid of the other kind, `mdg.subdomain_data` / `mdg.interface_data` raise KeyError otherwise -/
 def addLoop (e : Env) (name : Nat) (dof : List (Nat × Nat)) (isSub : Bool) :
-    State → List Nat → State × Bool
-  | s, [] => (s, true)
+    State → List Nat → State × Option Err
+  | s, [] => (s, none)
   | s, g :: gs =>
     if g ∈ (if isSub then e.subs else e.intfs) then
       addLoop e name dof isSub
         (appendVar e s ⟨s.next, name, g, isSub, dofGet dof 0, dofGet dof 1, dofGet dof 2⟩) gs
-    else (s, false)
+    else if g ∈ (if isSub then e.intfs else e.subs) then (s, some .assertion)
+    else (s, some .key)
 
 def createOn (e : Env) (s : State) (name : Nat) (dof : List (Nat × Nat)) (isSub : Bool)
     (grids : List Nat) : State × Except Err (List Nat) :=
   if s.vars.any (fun v => v.name == name && grids.contains v.grid) then (s, .error .key) else
   match addLoop e name dof isSub s grids with
-  | (s', false) => (s', .error .key)
-  | (s', true) =>
+  | (s', some err) => (s', .error err)
+  | (s', none) =>
     let s'' := cluster e s'
     -- MixedDimensionalVariable(variables): assertion on overlapping domains
     if grids.Nodup then (s'', .ok ((List.range' s.next grids.length)))
@@ -185,11 +187,18 @@ def cum (sizes : List Nat) (b : Nat) : Nat := (sizes.take b).sum
 def blockRange (sizes : List Nat) (b : Nat) : List Nat :=
   List.range' (cum sizes b) (cum sizes (b + 1) - cum sizes b)
 
+/-- `str(self)` (used in the message of the ValueError of `dofs_of`) runs into an assertion
+    when some variable name lives both on subdomains and on interfaces -/
+def mixedName (vars : List Var) : Bool :=
+  vars.any (fun v => vars.any (fun w => w.name == v.name && w.sub != v.sub))
+
+def unknownErr (s : State) : Err := if mixedName s.vars then .assertion else .value
+
 def dofsOfIds (s : State) : List Nat → Except Err (List Nat)
   | [] => .ok []
   | i :: r =>
     match numberOf s.numbers i with
-    | none => .error .value
+    | none => .error (unknownErr s)
     | some b =>
       match dofsOfIds s r with
       | .error err => .error err
@@ -383,5 +392,56 @@ def run (e : Env) : State → List Op → State
 def outputs (e : Env) : State → List Op → List (Except Err Out)
   | _, [] => []
   | s, op :: ops => (step e s op).2 :: outputs e (step e s op).1 ops
+
+/-! ### specification vocabulary (used by the statements in Props.lean) -/
+
+/-- The layout invariant of the state. -/
+structure Inv (e : Env) (s : State) : Prop where
+  /-- in dict order, `_variable_numbers` reads 0, 1, 2, … -/
+  numbered : s.numbers = numberFrom 0 (s.numbers.map (·.1))
+  /-- the keys of `_variable_numbers` are exactly the registered variables, each once -/
+  perm : (s.numbers.map (·.1)).Perm (s.vars.map (·.id))
+  /-- `_variables` is in creation order -/
+  idsLt : (s.vars.map (·.id)).Pairwise (· < ·)
+  fresh : ∀ v ∈ s.vars, v.id < s.next
+  /-- one block size per block -/
+  sizesLen : s.sizes.length = s.numbers.length
+  /-- every variable lives on a grid of the md-grid, of the right kind -/
+  kindOk : ∀ v ∈ s.vars, v.grid ∈ (if v.sub then e.subs else e.intfs)
+  /-- the size of a variable's block is its number of dofs -/
+  sizeOk : ∀ v ∈ s.vars, sizeOf s v.id = varSize e v
+
+/-- blocks appear in the order produced by `_cluster_dofs_gridwise` -/
+def Clustered (e : Env) (s : State) : Prop :=
+  s.numbers.map (·.1) = (clusterOrder e s.vars).map (·.id)
+
+/-- no two registered variables share name and domain (they would share their storage) -/
+def KeysUnique (s : State) : Prop :=
+  s.vars.Pairwise (fun v w => ¬ (v.name = w.name ∧ v.grid = w.grid))
+
+/-- position of a grid in the md-grid listing -/
+def gridPos (e : Env) (g : Nat) : Nat := e.order.idxOf g
+
+/-- a `create` call names only grids of the md-grid, of the right kind -/
+def GridsKnown (e : Env) : Op → Prop
+  | .create _ _ (some g) none => ∀ x ∈ g, x ∈ e.subs
+  | .create _ _ none (some g) => ∀ x ∈ g, x ∈ e.intfs
+  | _ => True
+
+/-- a `create` call does not repeat a grid -/
+def GridsNodup : Op → Prop
+  | .create _ _ (some g) none => g.Nodup
+  | .create _ _ none (some g) => g.Nodup
+  | _ => True
+
+/-- the global index `d` lies in the block of the variable with id `i` -/
+def owns (s : State) (i d : Nat) : Prop :=
+  ∃ b, numberOf s.numbers i = some b ∧ cum s.sizes b ≤ d ∧ d < cum s.sizes (b + 1)
+
+/-- total number of dofs of the blocks selected by `sel`, and the blocks themselves -/
+def selected (s : State) (sel : List Nat) : List (Nat × Nat) := s.numbers.filter (fun p => p.1 ∈ sel)
+
+def selectedSize (s : State) (sel : List Nat) : Nat :=
+  ((selected s sel).map (fun p => s.sizes.getD p.2 0)).sum
 
 end PorepyVerif.C05
